@@ -125,6 +125,8 @@ pub enum HandleSlot {
 
 pub struct ObjSlot {
     pub arc: Option<Arc<Desync<Val>>>,
+    /// never upgraded: only used to count the owners that are alive
+    pub weak: Option<std::sync::Weak<Desync<Val>>>,
     pub queue: Option<Arc<JobQueue>>,
     pub occupant: Option<u32>,
     pub value_drops: u32,
@@ -421,6 +423,7 @@ impl World {
             objs: (0..prog.n_objs)
                 .map(|_| ObjSlot {
                     arc: None,
+                    weak: None,
                     queue: None,
                     occupant: None,
                     value_drops: 0,
